@@ -311,10 +311,10 @@ theorem run_block_clean (b : Nat) (hrec : RecClean (runAt B b)) (env : Env) (cod
     (hwf : wfFlat code 0 1 = true) (resolve : Bool) (log : Log) (a : Abort)
     (h : (runAt B (b + 1) env code resolve log).res = .error a) : a.structural = false := by
   simp only [runAt] at h
-  have fs := flat_sound (B := B) (recTop := runAt B b) hrec env code 0 1 hwf
+  have fs := flat_sound (B := B) (recTop := runFresh B) hrec env code 0 1 hwf
     { stack := [], log := log } rfl (blockFuel code) (blockFuel_enough code)
   revert fs h
-  cases loop B (runAt B b) (runAt B b) env code (blockFuel code) 0 { stack := [], log := log } with
+  cases loop B (runAt B b) (runFresh B) env code (blockFuel code) 0 { stack := [], log := log } with
   | fail a' l => intro h fs; simp at h; subst h; exact fs
   | ok u s' =>
     intro h fs
